@@ -23,6 +23,7 @@ type Tuple []Val
 type Closure struct {
 	Fn       *ssa.Function
 	Bindings []Val
+	id       Term
 }
 
 type FuncRef struct{ Fn *ssa.Function }
@@ -144,6 +145,8 @@ type Run struct {
 	entryState     *State
 	writes         map[string][]string // probe: heap key -> refs written (names)
 	sliceArr       map[string]string   // slice term name -> backing array ref name (for slices built from a known allocation)
+	closures       map[string]*Closure
+	funcProv       map[string]string // function-valued term -> "pkgpath.Type.Field" it was loaded from
 	cellOrigin     map[*ssa.Alloc]string // captured (heap) slice variables: allocation tag of the value last stored
 	probeCtr0      int
 	axiomsDone map[string]bool
@@ -209,7 +212,7 @@ func (r *Run) def(prefix string, t Term) Term {
 	if r.noDef > 0 {
 		return t
 	}
-	if len(t.S) < 24 && !strings.Contains(t.S, " ") {
+	if !strings.Contains(t.S, " ") {
 		return t
 	}
 	n := r.fresh(prefix)
@@ -909,10 +912,24 @@ func (fr *Frame) term(v ssa.Value) Term {
 	case FuncRef:
 		return fr.run.funcRefTerm(t.Fn)
 	case *Closure:
-		return fr.run.funcRefTerm(t.Fn)
+		return fr.run.closureTerm(t)
 	}
 	unsupported("value %s of kind %T is not a term (%s)", v.Name(), x, fr.fn)
 	return Term{}
+}
+
+// closureTerm: an opaque identity for a closure value; the closure itself stays known to the executor so that a
+// later dynamic call through the same value (e.g. after passing it as an argument) can be resolved.
+func (r *Run) closureTerm(c *Closure) Term {
+	if c.id.S != "" {
+		return c.id
+	}
+	c.id = r.havoc("clo", "Int")
+	if r.closures == nil {
+		r.closures = map[string]*Closure{}
+	}
+	r.closures[c.id.S] = c
+	return c.id
 }
 
 func (r *Run) funcRefTerm(fn *ssa.Function) Term {
